@@ -437,6 +437,7 @@ func (s *Scenario) checkClean(before *stageSnap) {
 			continue
 		}
 		hash := before.cmpHash[base]
+		s.t.Note("clean: data of %s%s left staging (companion hash %.6s)", base, ext, hash)
 		if s.deliveredOrLogged(base, hash) {
 			s.t.Class("clean-removed-delivered-leftover")
 			continue
@@ -538,6 +539,15 @@ func (s *Scenario) finalChecks() {
 func keysOf(m map[string]int64) []string {
 	var k []string
 	for s := range m {
+		k = append(k, s)
+	}
+	sort.Strings(k)
+	return k
+}
+
+func keysOfSnap(sn *stageSnap) []string {
+	var k []string
+	for s := range sn.entries {
 		k = append(k, s)
 	}
 	sort.Strings(k)
